@@ -1145,3 +1145,37 @@ V(id='c37-benign-rename-both', prop='C37', file='mpmath/libmp/libintmath.py',
   edits=[("def gmpy_bitcount(n):\n    \"\"\"Calculate bit size of the nonnegative integer n.\"\"\"\n    if n: return MPZ(n).numdigits(2)\n    else: return 0",
           "def gmpy_bitcount(n):\n    \"\"\"Calculate bit size of the nonnegative integer n.\"\"\"\n    if not n:\n        return 0\n    return MPZ(n).numdigits(2)")],
   expect='silent')
+
+# ------------------------------------------------ C13 (B-R7, B-R8), C15/C14 (C-R9) -------
+V(id='c13-nth-no-guard-bits', prop='C13', file='mpmath/libmp/libelefun.py',
+  old="        nth = mpf_rdiv_int(1, fn, prec2)", new="        nth = mpf_rdiv_int(1, fn, prec)",
+  expect='fire:B-R7:mpf_nthroot')
+V(id='c13-cospi-arg-no-guard-bits', prop='C13', file='mpmath/libmp/libmpc.py',
+  old="    b = mpf_mul(b, mpf_pi(prec+5), prec+5)\n    if a == fzero:\n        return mpf_cosh(b, prec, rnd), fzero",
+  new="    b = mpf_mul(b, mpf_pi(prec+5), prec)\n    if a == fzero:\n        return mpf_cosh(b, prec, rnd), fzero",
+  expect='fire:B-R7:mpc_cos_pi')
+V(id='c13-benign-unguarded-consumer', prop='C13', file='mpmath/libmp/libelefun.py',
+  old="    c = mpf_log(s, prec+10, rnd)\n    return mpf_exp(mpf_mul(t, c), prec, rnd)",
+  new="    c = mpf_log(s, prec+12, rnd)\n    return mpf_exp(mpf_mul(t, c), prec, rnd)",
+  expect='silent')
+V(id='c13-benign-more-guard-bits', prop='C13', file='mpmath/libmp/libelefun.py',
+  old="        nth = mpf_rdiv_int(1, fn, prec2)", new="        nth = mpf_rdiv_int(1, fn, prec2 + 2)",
+  expect='silent')
+V(id='c13-tan-no-real-axis', prop='C13', file='mpmath/libmp/libmpc.py',
+  old="    if b == fzero: return mpf_tan(a, prec, rnd), fzero\n", new="",
+  expect='fire:B-R8:mpc_tan')
+V(id='c13-cos-real-axis-wrong-prec', prop='C13', file='mpmath/libmp/libmpc.py',
+  old="    if b == fzero:\n        return mpf_cos(a, prec, rnd), fzero", new="    if b == fzero:\n        return mpf_cos(a, prec), fzero",
+  expect='fire:B-R8:mpc_cos')
+V(id='c13-benign-axis-order', prop='C13', file='mpmath/libmp/libmpc.py',
+  old="    if b == fzero: return mpf_tan(a, prec, rnd), fzero\n    if a == fzero: return fzero, mpf_tanh(b, prec, rnd)",
+  new="    if a == fzero: return fzero, mpf_tanh(b, prec, rnd)\n    if b == fzero:\n        t = mpf_tan(a, prec, rnd)\n        return t, fzero",
+  expect='silent')
+V(id='c15-stale-rectangle', prop='C15', file='mpmath/libmp/libmpi.py',
+  old="        (a1,a2) = mpi_add((a1,a2), mpi_one, wp); z = (a1,a2), (b1,b2)",
+  new="        (a1,a2) = mpi_add((a1,a2), mpi_one, wp)",
+  expect='fire:C-R9:mpci_gamma')
+V(id='c15-benign-rebuild-next-line', prop='C15', file='mpmath/libmp/libmpi.py',
+  old="        (a1,a2) = mpi_add((a1,a2), mpi_one, wp); z = (a1,a2), (b1,b2)",
+  new="        (a1,a2) = mpi_add((a1,a2), mpi_one, wp)\n        z = ((a1,a2), (b1,b2))",
+  expect='silent')
